@@ -18,6 +18,7 @@ type Op struct {
 	V        string `json:"v,omitempty"`
 	Ck       bool   `json:"ck,omitempty"`
 	Fail     bool   `json:"fail,omitempty"`
+	Empty    bool   `json:"empty,omitempty"` // add: the file holds comments only
 	N        int    `json:"n,omitempty"`     // apply: count argument (0 = none)
 	Order    int    `json:"order,omitempty"` // apply: 0 linear, 1 linear-skip, 2 non-linear
 	Allow    bool   `json:"allow,omitempty"` // apply: --allow-dirty
@@ -34,6 +35,7 @@ type CLICase struct {
 
 type cliFile struct {
 	ck, fail bool
+	empty    bool // the file holds comments only (everything commented out, a placeholder): nothing to execute, still to be recorded
 }
 
 func ids(v string) [2]int {
@@ -45,6 +47,9 @@ func cliBody(v string, f cliFile) string {
 	b := ""
 	if f.ck {
 		b = "-- atlas:checkpoint\n\n"
+	}
+	if f.empty {
+		return b + "-- nothing to do in this version\n-- INSERT INTO journal (id) VALUES (0);\n"
 	}
 	id := ids(v)
 	b += "CREATE TABLE IF NOT EXISTS journal (id integer);\n"
@@ -265,7 +270,7 @@ func checkCLI(c CLICase) (CLIOutcome, error) {
 			if _, ok := files[op.V]; ok {
 				continue
 			}
-			f := cliFile{ck: op.Ck, fail: op.Fail}
+			f := cliFile{ck: op.Ck, fail: op.Fail && !op.Empty, empty: op.Empty}
 			files[op.V] = f
 			sb.WriteFile("m/"+op.V+"_f.sql", cliBody(op.V, f))
 			if err := rehash(); err != nil {
@@ -364,6 +369,9 @@ func checkCLI(c CLICase) (CLIOutcome, error) {
 						from = rv.Applied
 					}
 				}
+				if files[v].empty {
+					continue
+				}
 				if from <= 1 {
 					delta = append(delta, id[0])
 				}
@@ -383,6 +391,21 @@ func checkCLI(c CLICase) (CLIOutcome, error) {
 			}
 			if failed != (r.Code != 0) {
 				return out, fmt.Errorf("step %d: %v\n apply exit=%d, expected failure=%v: %v", step, s, r.Code, failed, r)
+			}
+			// every file the run went through (all of them but a failing one) is recorded as completely applied afterwards
+			for _, v := range p {
+				if files[v].fail {
+					break
+				}
+				ok := false
+				for _, rv := range after.revs {
+					if rv.Version == v && rv.Applied == rv.Total {
+						ok = true
+					}
+				}
+				if !ok {
+					return out, fmt.Errorf("step %d: %v\n apply n=%d went through file %s, but the revision table does not record it as applied afterwards: %+v\n%v", step, s, op.N, v, after.revs, r)
+				}
 			}
 		case "crash":
 			// the process dies right after a revision write (no transaction): what stays behind is a revision that is
